@@ -223,6 +223,58 @@ def kalman_numeric(rng, tier):
                 bound='dims <= 6, spread <= 1e6', failures=list(uniq.values())[:8], samples=samples)
 
 
+@bounded('C13.PF.monte_carlo', functions=[f'{PFM}:PF.forward', f'{PFM}:PF.generate_particles', f'{PFM}:PF.relative_likelihood', f'{PFM}:PF.resample_particles'])
+def pf_mc(rng, tier):
+    """real code (float64): one PF step on random LINEAR systems with CORRELATED priors against the closed-form posterior of the documented
+    particle model (prior N(x, nP), propagation through f without process noise, Gaussian likelihood of y, resampling; covariance Q + sample
+    covariance): mean inside a 6-sigma Monte-Carlo band, covariance within 6 sigma of its sampling error; 1e5 (quick) / 1e6 particles"""
+    import torch, pypose as pp, math
+    d = torch.float64
+    runs = 4 if tier == 'quick' else 12
+    Np = 100_000 if tier == 'quick' else 1_000_000
+    fails = []; evals = 0; samples = []
+    g = torch.Generator().manual_seed(rng.randrange(1 << 30))
+    for t in range(runs):
+        n = rng.randrange(2, 4); m = rng.randrange(1, n + 1)
+        A_ = torch.eye(n, dtype=d) + 0.3 * torch.randn(n, n, dtype=d, generator=g); C_ = torch.randn(m, n, dtype=d, generator=g)
+        c1 = torch.randn(n, dtype=d, generator=g)
+        class Lin(pp.module.NLS):
+            def state_transition(self, s, u, t=None): return s @ A_.T + u + c1
+            def observation(self, s, u, t=None): return s @ C_.T
+        # strongly correlated prior: P = L L^T with a large off-diagonal part (L L^T != L^T L)
+        Lm = torch.tril(torch.randn(n, n, dtype=d, generator=g)); Lm = Lm + torch.diag(0.5 + torch.rand(n, dtype=d, generator=g))
+        P = Lm @ Lm.T * 10 ** rng.uniform(-1, 0.5)
+        Qn = 0.01 * torch.eye(n, dtype=d); Rn = torch.eye(m, dtype=d) * (0.5 + rng.random()) * float(C_ @ (n * P) @ C_.T).__abs__() if m == 1 else \
+            torch.eye(m, dtype=d) * (0.5 + rng.random()) * float(torch.linalg.eigvalsh(C_ @ (n * P) @ C_.T).max())
+        x = torch.randn(n, dtype=d, generator=g); u = torch.randn(n, dtype=d, generator=g)
+        mp_ = A_ @ x + u + c1; Sp = A_ @ (n * P) @ A_.T
+        y = C_ @ mp_ + torch.linalg.cholesky(C_ @ Sp @ C_.T + Rn) @ torch.randn(m, dtype=d, generator=g)       # a typical measurement
+        S = C_ @ Sp @ C_.T + Rn; K = torch.linalg.solve(S, C_ @ Sp).T
+        mean = mp_ + K @ (y - C_ @ mp_); cov = Sp - K @ S @ K.T
+        # effective sample size of the importance weights (own draw of the documented model)
+        z = mp_ + torch.randn(20000, n, dtype=d, generator=g) @ torch.linalg.cholesky(Sp).T
+        lw = -0.5 * ((y - z @ C_.T) @ torch.linalg.inv(Rn) * (y - z @ C_.T)).sum(-1); w = torch.softmax(lw, 0)
+        ess_frac = float(1.0 / (w ** 2).sum()) / 20000
+        n_eff = Np * ess_frac / 2            # resampling at most doubles the variance
+        torch.manual_seed(rng.randrange(1 << 30))
+        try:
+            xe, Pe = pp.module.PF(Lin(), Qn, Rn, particles=Np)(x, y, u, P)
+        except Exception as e:
+            fails.append(dict(clause='PF_raises', signature=f'n={n},m={m}', error=f'{type(e).__name__}: {e}'[:160])); continue
+        evals += 1
+        sd = cov.diagonal().sqrt()
+        dev = float(((xe - mean).abs() / (sd / math.sqrt(n_eff))).max())
+        # sampling error of a covariance entry ~ sqrt((c_ii c_jj + c_ij^2) / n_eff)
+        se = ((cov.diagonal()[:, None] * cov.diagonal()[None, :] + cov ** 2) / n_eff).sqrt()
+        devP = float((((Pe - Qn) - cov).abs() / se).max())
+        if dev > 6 or devP > 6:
+            fails.append(dict(clause='PF_converges_to_the_posterior_of_the_documented_model', signature=f'correlated prior n={n},m={m}', mean_dev_sigmas=dev, cov_dev_sigmas=devP,
+                              particles=Np, ess_fraction=ess_frac))
+        if t < 2: samples.append(dict(n=n, m=m, mean_dev_sigmas=dev, cov_dev_sigmas=devP, ess_fraction=ess_frac))
+    return dict(evaluations=evals, distinct_nontrivial=evals, rule='random linear systems n in 2..3 with correlated (non-diagonal) priors; each PF step one evaluation; 6-sigma bands from the effective sample size',
+                bound=f'{runs} systems, {Np} particles', failures=fails[:4], samples=samples)
+
+
 @obligation('C13.canary.wrong_gain', functions=[f'{EKFM}:EKF.forward'], canary=True, timeout=300)
 def canary(env):
     ek = env.load(EKFM); T = env.T
